@@ -88,7 +88,7 @@ if __name__ == "__main__":
         args.remove("--save")
     res = main(args, tier, props)
     if save:
-        path = SEEDED / "RESULTS.json"
+        path = Path(os.environ["SEEDTEST_RESULTS"]) if os.environ.get("SEEDTEST_RESULTS") else SEEDED / "RESULTS.json"
         old = json.loads(path.read_text()) if path.exists() else {}
         old.update(res)
         path.write_text(json.dumps(old, indent=1, sort_keys=True))
